@@ -59,7 +59,7 @@ def generate(rng, tier, index):
             elif mode == 'exclude':
                 args = rng.choice([['BCC_A2'], ['FCC_A1'], ['BCC_A2']])
             evals.append({'pt': rng.randrange(len(pts)), 'rule': rng.choice(RULES), 'lab': rng.choice([1, 1.5, 2]), 'mode': mode, 'args': args, 'repeat': rng.random() < 0.4})
-        return {'kind': 'real', 'mob': rng.choice(['both', 'both', 'fcc_only']), 'cache': rng.choice(['on', 'on', 'off', 'clear_midway']), 'points': pts, 'evals': evals}
+        return {'kind': 'real', 'mob': rng.choice(['both', 'both', 'fcc_only', 'bcc_only']), 'cache': rng.choice(['on', 'on', 'off', 'clear_midway']), 'points': pts, 'evals': evals}
     sets = []
     for _ in range(rng.randint(20, 60)):
         p = rng.randint(1, 4)
@@ -86,10 +86,13 @@ def prepare(tier, recs):
     if any(r['kind'] == 'real' for r in recs) and not _TH:
         from kawin.thermo import GeneralThermodynamics
         from kawin.tests import datasets as ds
-        for key in ('both', 'fcc_only'):
+        for key in ('both', 'fcc_only', 'bcc_only'):
             t = GeneralThermodynamics(ds.FECRNI_DB, ['FE', 'CR', 'NI'], ['FCC_A1', 'BCC_A2'])
             if key == 'fcc_only':
                 t.mobCallables['BCC_A2'] = None
+            if key == 'bcc_only':
+                # the phase with mobility data is then the FIRST entry of the (alphabetical) stable-phase list
+                t.mobCallables['FCC_A1'] = None
             _TH[key] = t
 
 
